@@ -1,7 +1,7 @@
 """C03 Primary service discovery never reports secondary services."""
 from .lib.match import *
 
-SELECT = r'^bluetoe::details::(collect_primary_services|services_by_group)::each$|^bluetoe::server::(handle_read_by_group_type_request|handle_find_by_type_value_request)$'
+SELECT = r'^bluetoe::details::(collect_primary_services|services_by_group)::each$|^bluetoe::server::(handle_read_by_group_type_request|handle_find_by_type_value_request)$|^bluetoe::service::read_primary_service_response$'
 UNITS = lambda u: u in ('w_inst_att',) or u.startswith('t_att_read_by_group') or u.startswith('t_att_find_by_type')
 META = {
     'level': 'guarded-by rule on the two emitters of the Primary Service group (Read By Group Type: collect_primary_services::each -> read_primary_service_response; Find By Type Value: '
@@ -24,6 +24,7 @@ def is_primary_test(ats):
 
 def run(chk, facts, tier):
     chk.rule('emit-only-primary', 'both group emitters report a service only on the edge (declaration attribute).uuid == gatt_uuids::primary_service, the attribute being attribute_at(index_ of that service)', floor=2)
+    chk.rule('group-range', 'both emitters walk the services with index_ += Service::number_of_attributes and report the range [handle_by_index(index_), handle_by_index(index_ + Service::number_of_attributes - 1)]', floor=3)
     chk.rule('group-type-checked', 'Read By Group Type and Find By Type Value answer only for the «Primary Service» group type', floor=2)
     chk.rule('declaration-type-witness', 'a service with is_secondary_service has declaration type 0x2801, any other 0x2800 (definition of the declaration attribute)', floor=2)
     for fn in variants(facts, 'bluetoe::details::collect_primary_services::each', chk):
@@ -44,6 +45,38 @@ def run(chk, facts, tier):
                 init = local_init(fn, 'attr')
                 ok = init is not None and init.is_call('attribute_at') and is_name(init.args()[0], 'index_')
         chk.instance('emit-only-primary', fn, 'iterator_(first handle, last handle, attr) in services_by_group::each', ok, '' if ok else 'Find By Type Value «Primary Service» also reports services declared with is_secondary_service', key='find by type value')
+    # correct handle ranges: the group ends at the service's last attribute, the walk advances by the same attribute count
+    from .lib.linear import Lin, lin
+    for q, what in (('bluetoe::details::services_by_group::each', 'find by type value'), ('bluetoe::details::collect_primary_services::each', 'read by group type')):
+        for fn in variants(facts, q, chk):
+            if fn.kind != 'pattern':
+                continue
+            adv = [val for tgt, op, val, st in stores(fn.body) if is_name(tgt, 'index_') and op == '+=']
+            ok = len(adv) == 1 and lin(fn, adv[0]) == Lin(0, {'number_of_attributes': 1})
+            why = 'the walk does not advance by Service::number_of_attributes per service'
+            hb = [c for c in fn.body.calls('handle_by_index') if must_hold(c) or True]
+            ends = []
+            for c in fn.body.calls('handle_by_index'):
+                x = lin(fn, c.args()[0])
+                if x is not None and x.t.get('index_') == 1 and len(x.t) > 1:
+                    ends.append((c, x))
+            if what == 'find by type value':
+                ok2 = len(ends) == 1 and ends[0][1] == Lin(-1, {'index_': 1, 'number_of_attributes': 1})
+                if ok and not ok2:
+                    ok, why = False, 'Group End Handle is the handle at %s, the service ends at index_ + Service::number_of_attributes - 1 (include declarations and all characteristics): the reported range is %s' % (
+                        ends[0][1] if ends else '?', 'too short / too long' )
+            chk.instance('group-range', fn, '%s: %s' % (what, 'end = handle_by_index(index_ + number_of_attributes - 1); index_ += number_of_attributes' if what == 'find by type value' else 'index_ += number_of_attributes'), ok, '' if ok else why, key='range ' + what)
+    for fn in variants(facts, 'bluetoe::service::read_primary_service_response', chk):
+        if fn.kind != 'pattern':
+            continue
+        ends = []
+        for c in fn.body.calls('handle_by_index'):
+            x = lin(fn, c.args()[0])
+            if x is not None:
+                ends.append(x)
+        idx = fn.params[2]['n'] if len(fn.params) > 2 else 'index'
+        ok = Lin(0, {idx: 1}) in ends and Lin(-1, {idx: 1, 'number_of_attributes': 1}) in ends
+        chk.instance('group-range', fn, 'read_primary_service_response: handles at index and index + number_of_attributes - 1', ok, '' if ok else 'Read By Group Type reports a range that is not the service\'s first and last attribute (%s)' % ends, key='range response')
     for name in ('handle_read_by_group_type_request', 'handle_find_by_type_value_request'):
         for fn in variants(facts, 'bluetoe::server::' + name, chk):
             errs = [c for c in fn.body.calls('error_response') if mentions(c, 'unsupported_group_type')]
